@@ -53,6 +53,27 @@ def _strip_cases(c, model):
     return per_case_rot
 
 
+def _shrink(c, har):
+    """delta-debug the first failing script of every oracle kind (ops only; the cfg line stays) so that the
+    replay written by finish() is short.  Ops that become invalid by the removal of others are skipped by the
+    harness (`skip`), so every candidate is a valid script."""
+    seen = {}
+    for idx, (kind, msg, cid, lines) in enumerate(c.oracle_fail):
+        if kind in seen or len(lines) < 3:
+            continue
+
+        def pred(ops, kind=kind, cfg=lines[0]):
+            r = vlib.run_cases(har, [("shrink", [cfg] + ops)], shards=1, timeout=120).get("shrink")
+            if not r:
+                return False
+            if kind == "crash":
+                return bool(r.get("crash"))
+            return any(o.split(" ", 1)[0] == kind for o in r["oracle"])
+        small = vlib.ddmin(lines[1:], pred, budget=60 if len(lines) > 1500 else 300)
+        seen[kind] = [lines[0]] + small
+        c.oracle_fail[idx] = (kind, msg + "  [script shrunk from %d to %d ops]" % (len(lines) - 1, len(small)), cid, seen[kind])
+
+
 def run(c):
     """legs C and O for the red-black tree; returns False if the harness could not be built."""
     okm, mlog = vlib.coq_make(["Rb/RbExtract.vo"])
@@ -78,6 +99,8 @@ def run(c):
             pool = c.rng.choice([3000, 10000] if thorough else [600, 2000])
             cases.append(("big%d-%d" % (i, pool), gen.gen_big(c.rng, pool, 64 if pool >= 3000 else 16)))
         ex = gen.exhaustive("cmp", 8 if thorough else 6, 6, 3) + gen.exhaustive("ord", 7 if thorough else 5, 6, 0)
+        if thorough:
+            ex += gen.exhaustive("cmp", 9, 6, 2)
         c.count("rb_exhaustive_cases", len(ex))
         cases += ex
     for _, ls in cases:
@@ -97,4 +120,5 @@ def run(c):
         if missing:
             c.broken.append("rb coverage rule: rebalancing cases never generated: " + ", ".join(missing))
     c.compare(cases, impl, model, lambda cid, lines, ri: "|".join(lines) if rot.get(cid) else None)
+    _shrink(c, har)
     return True
